@@ -22,7 +22,8 @@ import (
 )
 
 func TestMain(m *testing.M) {
-	vk.Main(m, "C20", "exploration", "TODO")
+	vk.Main(m, "C20", "exploration",
+		"same inputs as C19 (corpus verbatim; base source + optional AST mutation + conventional comments + layout perturbation), except that a perturbation keeps every line break where it is (number of blank lines, indentation and intra-line spacing vary): which lines a construct is broken over is input to the printer's layout decisions, and re-breaking lines at arbitrary token boundaries gives an open-ended tail of alignment effects that no closed list of shapes covers. Oracle: format.Source(format.Source(x)) == format.Source(x) bytewise (x whose first pass fails is C19's business and counted as rejected). Listed findings are matched by shape as in C19. Non-trivial = the first pass changed the text; distinct = source bytes")
 }
 
 type Case struct {
@@ -41,11 +42,14 @@ type info struct {
 }
 
 // cls builds the verdict class: a source that shows the shape of a listed finding (fmtin.Shapes)
-// fails as "shape/<shape>" whatever the kind of failure, any other source as "<kind>" or
-// "<kind>:<signature>".
+// fails as "shape/<shape>" whatever the kind of failure (the first shape that is still listed as
+// a known finding of this property: a repaired shape stops covering for anything), any other
+// source as "<kind>" or "<kind>:<signature>".
 func (in info) cls(kind, sig string) string {
-	if len(in.shapes) > 0 {
-		return "shape/" + in.shapes[0]
+	for _, sh := range in.shapes {
+		if vk.R.KnownClass("shape/"+sh) != nil {
+			return "shape/" + sh
+		}
 	}
 	if sig != "" {
 		return kind + ":" + sig
